@@ -7,7 +7,7 @@
 (* For every run TLC computes the SET the history denotes, I == Fold({}, hist),    *)
 (* and judges the recorded answers against the functions of Intentions.tla.        *)
 (* A failed predicate is printed as <<"REJECT", line, {names}>>.                    *)
-EXTENDS Intentions, Json
+EXTENDS Intentions, Json, SequencesExt
 
 Trace == ndJsonDeserialize("trace.ndjson")
 VARIABLE l
@@ -51,6 +51,11 @@ JudgeObs(rep, I, o) ==
                s == [name |-> x[2], peer |-> x[3]]
            IN /\ x[6] = BitsOf(Summary(I, s, x[4], x[5], FALSE), x[5])
               /\ x[7] = BitsOf(Summary(I, s, x[4], x[5], TRUE), x[5]))
+  \cup F("topology",
+         \A m \in DOMAIN o.topo :
+           LET x == o.topo[m] IN
+           /\ ToSet(x[4]) = Topology(I, x[1], x[2] = "down", x[3], ToSet(o.cands))
+           /\ Cardinality(ToSet(x[4])) = Len(x[4]))
   \cup F("authorize",
          \A m \in DOMAIN o.auth :
            LET x == o.auth[m]
